@@ -135,7 +135,7 @@ func cat(xs ...[]op) []op {
 	return out
 }
 
-var lives = []string{"fresh", "clone", "clone-then-config", "changed", "switch", "clone-reconfig", "fork", "usertls", "twohosts", "closereq"}
+var lives = []string{"fresh", "clone", "clone-then-config", "changed", "switch", "clone-reconfig", "fork", "usertls", "twohosts", "closereq", "proxy"}
 
 // requests to the origin's name h (0 = localhost, 1 = 127.0.0.1), optionally carrying Connection: close
 func rq(h int, cl bool) []op { return []op{{K: "req", H: h, C: cl}} }
@@ -185,6 +185,7 @@ func matrix(specs []srvSpec) []cell {
 							po := protoOps(force, h3 && force != 3, (si+force)%2 == 0)
 							other := tlsSettings[(si+1+force)%len(tlsSettings)]
 							var ops []op
+							pk := 0
 							switch life {
 							case "switch":
 								// use the client, THEN force another version (or lift the forcing), use it, go back
@@ -211,7 +212,7 @@ func matrix(specs []srvSpec) []cell {
 									us = userSpecs[[]int{0, 4, 6, 7}[(si+ti)%4]]
 								}
 								kind := []string{"dialtls", "handshake"}[(si+ti+force)%2]
-								on := []op{{K: kind, TLS: &us}}
+								on := []op{{K: kind, TLS: &us, W: kind == "dialtls" && (si+force)%2 == 1}} // wrapped pkg/tls.Conn
 								off := []op{{K: kind, TLS: &tlsSpec{Nil: true}}}
 								switch (si + 2*ti + force) % 4 {
 								case 0:
@@ -254,6 +255,28 @@ func matrix(specs []srvSpec) []cell {
 								case 2:
 									ops = cat(tlsOps(setter, ts.T, nil), po, rq(0, false), h2c, rq(0, true), []op{{K: "closeidle"}}, rq(0, true), rq(0, false))
 								}
+							case "proxy":
+								// the route through a CONNECT proxy (http:// or https://): the handshake with the ORIGIN inside
+								// the tunnel is governed by the settings with the origin's name, a tunnel serves its own
+								// authority only, the first hop to an https:// proxy is governed with the proxy's name
+								pk = 1 + (si+ti+force)%2
+								on, off := []op{{K: "proxy", B: true}}, []op{{K: "proxy"}}
+								a, b := (si+force)%2, 1-(si+force)%2
+								switch (si + 2*ti + force) % 4 {
+								case 0: // two authorities behind the proxy, then direct again
+									ops = cat(tlsOps(setter, ts.T, nil), po, on, rq(a, false), rq(b, false), rq(a, false), off, rq(b, false))
+								case 1: // switched on after first use; settings changed while tunnelling
+									ops = cat(tlsOps(setter, other.T, nil), po, rq(a, false), on, rq(a, false), rq(b, false),
+										tlsOps(setter, ts.T, &other.T), []op{{K: "closeidle"}}, rq(b, false), rq(a, false))
+								case 2: // caller-supplied TLS (bare or wrapped conn) together with the proxy; a clone inherits both
+									us := userSpecs[(si*3+ti+force)%len(userSpecs)]
+									kind := []string{"dialtls", "handshake"}[(si+ti)%2]
+									ops = cat(tlsOps(setter, ts.T, nil), po, []op{{K: kind, TLS: &us, W: kind == "dialtls" && (si+force)%2 == 0}}, on,
+										rq(a, false), rq(b, false), []op{{K: "clone"}}, rq(a, false))
+								case 3: // Connection: close through the tunnel, a throw-away clone without the proxy
+									ops = cat(tlsOps(setter, ts.T, nil), po, on, rq(a, true), rq(a, false), rq(b, true),
+										[]op{{K: "fork", F: &op{K: "proxy"}}}, rq(b, false))
+								}
 							case "fork":
 								// a differently configured clone is used and dropped; the original must not notice
 								acts := []*op{nil, {K: "settls", TLS: &other.T}, {K: "skip", B: !ts.T.Skip}, {K: "root", N: 1},
@@ -293,7 +316,7 @@ func matrix(specs []srvSpec) []cell {
 									reqs(1), []op{{K: "closeidle"}}, reqs(2))
 							}
 							cells = append(cells, cell{
-								Shape: fmt.Sprintf("f%d-h3%v-%s-%s-%s", force, h3, ts.Name, setter, life), Life: life,
+								Shape: fmt.Sprintf("f%d-h3%v-%s-%s-%s", force, h3, ts.Name, setter, life), Life: life, Proxy: pk,
 								Spec:  sp, Ops: ops})
 						}
 					}
@@ -362,6 +385,13 @@ func randomWalk(rng *hk.Rand, specs []srvSpec) cell {
 	sp := hk.Pick(rng, specs)
 	n := rng.Range(5, 12)
 	var ops []op
+	pk := 0
+	if sp.HTTPS && rng.Chance(35) {
+		pk = rng.Range(1, 2)
+		if rng.Chance(60) {
+			ops = append(ops, op{K: "proxy", B: true})
+		}
+	}
 	// start from a setting that is likely to be accepted so that the walk gets somewhere
 	if sp.HTTPS && rng.Chance(75) {
 		ts := hk.Pick(rng, []tlsSetting{tlsSettings[1], tlsSettings[3], tlsSettings[6], tlsSettings[8]})
@@ -394,9 +424,16 @@ func randomWalk(rng *hk.Rand, specs []srvSpec) cell {
 		case k < 14:
 			switch rng.Intn(4) {
 			case 0:
-				ops = append(ops, op{K: hk.Pick(rng, []string{"dialtls", "handshake"}), TLS: &userSpecs[rng.Intn(len(userSpecs))]})
+				k := hk.Pick(rng, []string{"dialtls", "handshake"})
+				ops = append(ops, op{K: k, TLS: &userSpecs[rng.Intn(len(userSpecs))], W: k == "dialtls" && rng.Bool()})
 			case 1:
 				ops = append(ops, op{K: hk.Pick(rng, []string{"dialtls", "handshake"}), TLS: &tlsSpec{Nil: true}})
+			case 2:
+				if pk > 0 {
+					ops = append(ops, op{K: "proxy", B: rng.Chance(60)})
+				} else {
+					ops = append(ops, op{K: "closeidle"})
+				}
 			default:
 				ops = append(ops, op{K: "closeidle"})
 			}
@@ -420,7 +457,7 @@ func randomWalk(rng *hk.Rand, specs []srvSpec) cell {
 		}
 	}
 	ops = append(ops, op{K: "req"})
-	return cell{Shape: "walk", Spec: sp, Ops: ops}
+	return cell{Shape: "walk", Spec: sp, Ops: ops, Proxy: pk}
 }
 
 func slowCell(c cell) bool {
